@@ -46,7 +46,10 @@ GM_LinkLens == {2}
 GM_Speeds == {1}
 GM_Gates == { << <<lt, ct, (CASE lt = 0 -> 2000 [] lt = 1 -> 1000 [] lt = 2 -> 8) + d>> >> :
                 lt \in 0..2, ct \in 0..4, d \in {-1, 0, 1} }
-              \cup { << <<2, 3, 8>>, <<0, 2, 2000>> >>, << <<2, 3, 8>>, <<1, 0, 1000>> >> }
+              \* several conditions: all must hold (last fails / all hold / FIRST fails and last holds / middle fails)
+              \cup { << <<2, 3, 8>>, <<0, 2, 2000>> >>, << <<2, 3, 8>>, <<1, 0, 1000>> >>,
+                     << <<0, 2, 2000>>, <<2, 3, 8>> >>, << <<1, 1, 1000>>, <<2, 0, 8>> >>,
+                     << <<2, 0, 8>>, <<0, 1, 2000>>, <<1, 0, 1000>> >>, << <<2, 0, 8>>, <<0, 0, 2000>>, <<1, 0, 1000>> >> }
 
 \* a link without any speed limit is rejected by network validation: only complete layouts are emitted
 Emit == (Len(links) >= 1 /\ \A k \in 1..Len(links) : Len(links[k].rs) >= 1)
